@@ -11,12 +11,20 @@ use crate::{
 
 use super::{r#type::TypecheckFlags, CompilationState, Compile, Dependencies, Value};
 
+/// `ends_module`: a bare `return` in the top-level code of a file ends that code, like reaching the end of the file.
 #[derive(Debug)]
-pub(crate) struct ReturnStatement(Option<Value>);
+pub(crate) struct ReturnStatement {
+    value: Option<Value>,
+    ends_module: bool,
+}
 
 impl Compile for ReturnStatement {
     fn compile(&self, state: &CompilationState) -> Result<Vec<super::CompiledItem>> {
-        let Some(ref return_value) = self.0 else {
+        let Some(ref return_value) = self.value else {
+            if self.ends_module {
+                // the importer is waiting for the module, as at the end of the file
+                return Ok(vec![instruction!(ret_mod)]);
+            }
             return Ok(vec![instruction!(ret)]);
         };
 
@@ -28,7 +36,7 @@ impl Compile for ReturnStatement {
 
 impl Dependencies for ReturnStatement {
     fn dependencies(&self) -> Vec<super::Dependency> {
-        if let Some(ref return_value) = self.0 {
+        if let Some(ref return_value) = self.value {
             return_value.net_dependencies()
         } else {
             vec![]
@@ -67,7 +75,10 @@ impl Parser {
                 )]);
             } else {
                 // #4
-                return Ok(ReturnStatement(None));
+                return Ok(ReturnStatement {
+                    value: None,
+                    ends_module: !input.user_data().is_inside_function(),
+                });
             }
         };
 
@@ -114,6 +125,9 @@ impl Parser {
         }
 
         // #2
-        Ok(ReturnStatement(Some(value)))
+        Ok(ReturnStatement {
+            value: Some(value),
+            ends_module: false,
+        })
     }
 }
